@@ -38,6 +38,7 @@ fn driver(prop: &str) -> Option<(&'static str, fn(&mut Cx, &mut Rng) -> R)> {
         "C15" => ("C15", props::c15::case),
         "C16" => ("C16", props::c16::case),
         "C17" => ("C17", props::c17::case),
+        "C18" => ("C18", props::c18::case),
         "C19" => ("C19", props::c19::case),
         "C20" => ("C20", props::c20::case),
         "T00" => ("T00", selftest),
